@@ -77,7 +77,7 @@ def data_case(draw, signer_kinds=None, max_total=70000):
     return {'kind': 'data', 'name': _steer_name(draw, draw(S.name(0, 6, allow_digest_types=True)), max_total),
             'name_rep': draw(st.integers(0, 6)),
             'meta': meta, 'payload': draw(payload_spec(max_total)),
-            'signer': draw(K.signer_spec(signer_kinds))}
+            'signer': draw(K.signer_spec(signer_kinds)), 'reuse': draw(st.booleans())}
 
 
 @st.composite
@@ -102,7 +102,7 @@ def interest_case(draw, signer_kinds=None, max_total=70000):
         'forwarding_hint': draw(st.lists(S.name(0, 3, max_len=10, allow_digest_types=False), max_size=3)),
     }
     return {'kind': 'interest', 'name': name, 'name_rep': draw(st.integers(0, 6)), 'digest_pos': digest_pos,
-            'params': params, 'payload': payload, 'signer': signer,
+            'params': params, 'payload': payload, 'signer': signer, 'reuse': draw(st.booleans()),
             'sig_time': draw(st.integers(0, 2 ** 48)), 'sig_nonce': draw(st.integers(1, 2 ** 64 - 1))}
 
 
@@ -397,7 +397,7 @@ LP_INT_FIELDS = {0x52: 'frag_index', 0x53: 'frag_count', 0x032C: 'incoming_face_
 LP_BYTES_FIELDS = {0x62: 'pit_token', 0x0344: 'ack', 0x0348: 'tx_sequence', 0x0350: 'prefix_announcement', 0x50: 'fragment'}
 
 
-def strict_lp(wire):
+def strict_lp(wire, allow_frag=False):
     buf = bytes(wire)
     el = T.single(buf)
     if el[0] != LP_PACKET:
@@ -416,7 +416,7 @@ def strict_lp(wire):
         n = match_fields(buf, f[0x0334][2], f[0x0334][3], [0x0335])
         out['cache_policy_type'] = _nni(buf, n[0x0335]) if 0x0335 in n else None
         out['cache_policy'] = True
-    if out['frag_index'] is not None or out['frag_count'] is not None:
+    if (out['frag_index'] is not None or out['frag_count'] is not None) and not allow_frag:
         raise T.Malformed('fragmentation unsupported')
     return out
 
